@@ -117,7 +117,7 @@ def sample_value(p, rng, mode, ctx):
     if p in ("d",):
         return nonneg(4000.0, [0.0, 1e4])
     if p == "r":
-        return nonneg(1.0, [0.0, 1.0])
+        return nonneg(1.0, [0.0, 1.0, 1.5])
     if p == "rho_max":
         return ctx["rho_max"]
     if p == "rho_crit":
@@ -206,7 +206,7 @@ def call_impl(var, vals, lib, scalar_shape="float"):
         elif t == "I":
             args.append(list(var["vsl"]))
         elif t == "STR":
-            args.append(var["s"])
+            args.append(bytes(var["s"], "ascii").decode("ascii"))     # equal to, but not the same object as, the literal
     if var["suffix"] == "_s":
         # scalar variant of Veq: call with python/0-d scalars
         args = [vals[p] if lib == "np" else cs.DM(vals[p]) for p in var["sig"]]
